@@ -17,15 +17,15 @@ func init() { subcmds["lockcheck"] = lockcheckCmd }
 // lockcheck: structural facts about the pub/sub source (go/ast, conservative: a shape that is
 // not recognised counts as unguarded).  The obligation behind C19_atomic_ops_linearizable:
 //
-//  (A) every access  X.conns / X.numSubs  (the fields of memdb.Chan; unexported, so only package
-//      memdb can touch them) occurs in a function whose body has, as top-level statements and
-//      before the access,  X.rw.Lock()  and  defer X.rw.Unlock(),  with no other X.rw.Unlock()
-//      in the function, and not inside a function literal;
-//  (B) every network write in ChanMap.Send (a call  c.Write(...)) has  c.SetWriteDeadline(...)
-//      as an earlier statement of the same block — the lock is never held across an unbounded write;
-//  (C) every call  m.item.Set / m.item.Delete  on the channel table of a ChanMap happens after a
-//      top-level  m.rw.Lock()  +  defer m.rw.Unlock()  of the same function, or in ChanMap.Create
-//      all of whose callers call it under that lock.
+//	(A) every access  X.conns / X.numSubs  (the fields of memdb.Chan; unexported, so only package
+//	    memdb can touch them) occurs in a function whose body has, as top-level statements and
+//	    before the access,  X.rw.Lock()  and  defer X.rw.Unlock(),  with no other X.rw.Unlock()
+//	    in the function, and not inside a function literal;
+//	(B) every network write in ChanMap.Send (a call  c.Write(...)) has  c.SetWriteDeadline(...)
+//	    as an earlier statement of the same block — the lock is never held across an unbounded write;
+//	(C) every call  m.item.Set / m.item.Delete  on the channel table of a ChanMap happens after a
+//	    top-level  m.rw.Lock()  +  defer m.rw.Unlock()  of the same function, or in ChanMap.Create
+//	    all of whose callers call it under that lock.
 type access struct {
 	File    string `json:"file"`
 	Func    string `json:"func"`
@@ -36,10 +36,10 @@ type access struct {
 }
 
 type lockFacts struct {
-	Accesses         []access `json:"accesses"`          // (A)
-	Writes           []access `json:"writes"`            // (B)
-	TableMutations   []access `json:"table_mutations"`   // (C)
-	Functions        []string `json:"functions"`         // functions touching conns/numSubs
+	Accesses         []access `json:"accesses"`        // (A)
+	Writes           []access `json:"writes"`          // (B)
+	TableMutations   []access `json:"table_mutations"` // (C)
+	Functions        []string `json:"functions"`       // functions touching conns/numSubs
 	AllGuarded       bool     `json:"all_guarded"`
 	SendFound        bool     `json:"send_found"`
 	SubscribeFound   bool     `json:"subscribe_found"`
